@@ -168,7 +168,7 @@ UndeclaredZero ==
 \* a struct of whole bytes used as a field of another struct: its image sits in the outer image unchanged, and
 \* taking the outer image apart gives its fields back
 NestedTransparent ==
-    finished /\ TotalBits(layout) % 8 = 0 =>
+    finished /\ TotalBits(layout) % 8 = 0 /\ TotalBits(layout) <= 64 =>
         LET w == TotalBits(layout)
             outer == <<[w |-> 3, pre |-> 1, post |-> 4, kind |-> "bits"],
                        [w |-> w, pre |-> 0, post |-> 0, kind |-> "nested"],
